@@ -633,6 +633,161 @@ def key_skeletons(relevant, aliasing):
     return out
 
 
+# ------------------------------------------------------------------------------------------------
+# static check: the code reachable from the modelled operations keeps NO mutable state outside the two fields of a point
+# object (and the key's reference): no module-level / class-level container that is updated, no `global`, no store to a
+# class attribute, no in-place update of a container held in an attribute, no mutable default argument.
+MUTATORS = {"append", "extend", "insert", "pop", "remove", "clear", "sort", "reverse", "update", "setdefault", "add",
+            "discard", "popitem", "appendleft", "popleft", "__setitem__", "__delitem__"}
+STATE_MODULES = ("ellipticcurve.py", "numbertheory.py", "keys.py", "ecdsa.py")
+
+
+def _is_container_expr(e):
+    if isinstance(e, (ast.List, ast.Dict, ast.Set, ast.ListComp, ast.DictComp, ast.SetComp)):
+        return True
+    if isinstance(e, ast.Call):
+        f = e.func
+        name = f.id if isinstance(f, ast.Name) else (f.attr if isinstance(f, ast.Attribute) else None)
+        return name in ("list", "dict", "set", "bytearray", "defaultdict", "OrderedDict", "deque", "Counter")
+    if isinstance(e, ast.BinOp) and isinstance(e.op, (ast.Mult, ast.Add)):
+        return _is_container_expr(e.left) or _is_container_expr(e.right)
+    return False
+
+
+def _functions(node, prefix=""):
+    for n in node.body:
+        if isinstance(n, (ast.FunctionDef, ast.AsyncFunctionDef)):
+            yield prefix + n.name, n, None
+        elif isinstance(n, ast.ClassDef):
+            for m in n.body:
+                if isinstance(m, (ast.FunctionDef, ast.AsyncFunctionDef)):
+                    yield n.name + "." + m.name, m, n.name
+
+
+def _reachable_functions():
+    """names `module.func` / `module.Class.method` reachable (by a name-based, over-approximating call graph) from the
+    modelled operations: every method of the classes of ellipticcurve.py and the five key-level methods"""
+    defs = {}      # qualified name -> (module, short name, ast)
+    for fn in STATE_MODULES:
+        tree = ast.parse(open(os.path.join(common.SRC, "ecdsa", fn)).read())
+        for fname, f, cls in _functions(tree):
+            defs["%s.%s" % (fn[:-3], fname)] = (fn[:-3], f.name, f)
+    by_short = {}
+    for q, (m, short, f) in defs.items():
+        by_short.setdefault(short, []).append(q)
+    roots = [q for q in defs if q.startswith("ellipticcurve.") and "." in q[len("ellipticcurve."):]]
+    roots += ["ecdsa.Public_key.verifies", "ecdsa.Private_key.sign", "keys.VerifyingKey.precompute",
+              "keys.VerifyingKey._raw_encode", "keys.VerifyingKey._compressed_encode"]
+    seen, todo = set(), [r for r in roots if r in defs]
+    while todo:
+        q = todo.pop()
+        if q in seen:
+            continue
+        seen.add(q)
+        for n in ast.walk(defs[q][2]):
+            short = n.id if isinstance(n, ast.Name) else (n.attr if isinstance(n, ast.Attribute) else None)
+            # dunder / very common method names would connect everything: follow only names defined once or in ellipticcurve
+            for cand in by_short.get(short, []):
+                if cand not in seen and (len(by_short[short]) == 1 or cand.startswith("ellipticcurve.") or cand.startswith("numbertheory.")):
+                    todo.append(cand)
+    return seen
+
+
+def shared_state_findings():
+    """-> (findings in code reachable from the modelled operations, read-only containers, findings elsewhere)"""
+    reach = _reachable_functions()
+    findings, readonly, outside = [], [], []
+    for fn in STATE_MODULES:
+        path = os.path.join(common.SRC, "ecdsa", fn)
+        tree = ast.parse(open(path).read())
+        mod = fn[:-3]
+        classes = {n.name for n in tree.body if isinstance(n, ast.ClassDef)}
+        # 1/2. module-level and class-level containers
+        conts = {}     # name -> description
+        for n in tree.body:
+            targets = []
+            if isinstance(n, ast.Assign) and _is_container_expr(n.value):
+                targets = [t.id for t in n.targets if isinstance(t, ast.Name)]
+            elif isinstance(n, ast.AnnAssign) and n.value is not None and _is_container_expr(n.value) and isinstance(n.target, ast.Name):
+                targets = [n.target.id]
+            for t in targets:
+                if not (t.startswith("__") and t.endswith("__")):
+                    conts[t] = "%s.%s" % (mod, t)
+            if isinstance(n, ast.ClassDef):
+                for m in n.body:
+                    if isinstance(m, ast.Assign) and _is_container_expr(m.value):
+                        for t in m.targets:
+                            if isinstance(t, ast.Name) and not (t.id.startswith("__") and t.id.endswith("__")):
+                                conts[t.id] = "%s.%s.%s" % (mod, n.name, t.id)
+        mutated = set()
+        for fname, f, cls in _functions(tree):
+            where = "%s.%s" % (mod, fname)
+            sink_all = findings
+            findings = findings if where in reach else outside
+            # 6. mutable default arguments
+            for d in list(f.args.defaults) + [d for d in f.args.kw_defaults if d is not None]:
+                if _is_container_expr(d):
+                    findings.append("%s: mutable default argument" % where)
+            alias = {}      # local name -> what it aliases ("cont:<name>" / "attr:<expr>")
+            for n in ast.walk(f):
+                if isinstance(n, ast.Assign) and len(n.targets) == 1 and isinstance(n.targets[0], ast.Name):
+                    v = n.value
+                    if isinstance(v, ast.Name) and v.id in conts:
+                        alias[n.targets[0].id] = "cont:" + v.id
+                    elif isinstance(v, ast.Attribute) and v.attr in conts:
+                        alias[n.targets[0].id] = "cont:" + v.attr
+                    elif isinstance(v, ast.Attribute) and isinstance(v.value, ast.Name) and v.value.id in ("self", "other", "cls"):
+                        alias[n.targets[0].id] = "attr:%s.%s" % (v.value.id, v.attr)
+
+            def base_kind(e):
+                """what container an expression denotes: 'cont:<name>', 'attr:<self.x>' or None"""
+                if isinstance(e, ast.Name):
+                    if e.id in conts:
+                        return "cont:" + e.id
+                    return alias.get(e.id)
+                if isinstance(e, ast.Attribute):
+                    if e.attr in conts:
+                        return "cont:" + e.attr
+                    if isinstance(e.value, ast.Name) and e.value.id in ("self", "other", "cls"):
+                        return "attr:%s.%s" % (e.value.id, e.attr)
+                return None
+
+            def hit(kind, how, node):
+                if kind is None:
+                    return
+                if kind.startswith("cont:"):
+                    mutated.add(kind[5:])
+                    findings.append("%s line %d: %s of the %s container %s" % (
+                        where, node.lineno, how, "class-level" if conts[kind[5:]].count(".") == 2 else "module-level", conts[kind[5:]]))
+                else:
+                    findings.append("%s line %d: %s of the value of %s (in-place update of a container held in an attribute)" % (
+                        where, node.lineno, how, kind[5:]))
+            for n in ast.walk(f):
+                if isinstance(n, (ast.Global, ast.Nonlocal)) and isinstance(n, ast.Global):
+                    findings.append("%s line %d: global %s" % (where, n.lineno, ", ".join(n.names)))
+                if isinstance(n, ast.Subscript) and isinstance(n.ctx, (ast.Store, ast.Del)):
+                    hit(base_kind(n.value), "element store" if isinstance(n.ctx, ast.Store) else "element deletion", n)
+                if isinstance(n, ast.Call) and isinstance(n.func, ast.Attribute) and n.func.attr in MUTATORS:
+                    hit(base_kind(n.func.value), "." + n.func.attr + "()", n)
+                if isinstance(n, ast.AugAssign):
+                    k = base_kind(n.target)
+                    if k is not None and k.startswith("cont:"):
+                        hit(k, "augmented assignment", n)
+                if isinstance(n, ast.Attribute) and isinstance(n.ctx, (ast.Store, ast.Del)):
+                    v = n.value
+                    # 4. store to a class attribute
+                    if (isinstance(v, ast.Name) and (v.id == "cls" or v.id in classes)) or \
+                            (isinstance(v, ast.Attribute) and v.attr == "__class__"):
+                        findings.append("%s line %d: store to the class attribute %s" % (where, n.lineno, n.attr))
+            findings = sink_all
+        for name, desc in conts.items():
+            if name not in mutated:
+                readonly.append(desc)
+    # `__setstate__` is `self.__dict__.update(state)` on the object being unpickled: modelled (mSetstate: two stores)
+    findings = [x for x in findings if not ("__setstate__" in x and ".update() of the value of self.__dict__" in x)]
+    return sorted(set(findings)), sorted(readonly), sorted(set(outside))
+
+
 def _lean_tok(t):
     if t[0] in ("R", "W"):
         return ".%s .%s .%s" % t
@@ -722,6 +877,16 @@ def generate():
     vk = vk_precompute_shape()
     L.append("/-- keys.py VerifyingKey.precompute: the point object is swapped by ONE attribute store (shape checked by the translator) -/")
     L.append("def vk_precompute : List String := [%s]" % ", ".join('"%s"' % x for x in vk))
+    L.append("")
+    findings, readonly, outside = shared_state_findings()
+    L.append("/-- updates of state that is shared by ALL threads independently of the objects they use (module-level / class-level")
+    L.append("containers, `global`, class attributes), in-place updates of containers held in attributes, mutable default")
+    L.append("arguments — found by the static check over ellipticcurve.py, numbertheory.py, keys.py, ecdsa.py; must be empty -/")
+    L.append("def shared_module_state : List String := [%s]" % ", ".join('"%s"' % x.replace('"', "'") for x in findings))
+    L.append("/-- module-level / class-level containers that exist but are never updated (read-only tables) -/")
+    L.append("def readonly_module_containers : List String := [%s]" % ", ".join('"%s"' % x for x in readonly))
+    L.append("/-- the same kind of finding in functions that are NOT reachable from the modelled operations (outside C18's scope) -/")
+    L.append("def shared_state_outside_scope : List String := [%s]" % ", ".join('"%s"' % x.replace('"', "'") for x in outside))
     L.append("")
     L.append("def touched : List String := [%s]" % ", ".join('"%s"' % m for m in names))
     L.append("def untouched : List String := [%s]" % ", ".join('"%s"' % m for m in sorted(sk) if m not in relevant))
